@@ -102,6 +102,28 @@ Proof.
   intros c H n. unfold memoize, memo_eqb. rewrite H. cbn [Z.eqb]. rewrite find_exact. reflexivity.
 Qed.
 
+Lemma plain_var_eval : forall e x, plain_var e x = true -> forall rf env v,
+  lookup_var x env = Some v -> aeval rf env e = Ret v.
+Proof.
+  induction e; intros x0 H rf env v Hv; cbn [plain_var] in H; try discriminate.
+  - apply name_eqb_eq in H. subst. cbn [aeval]. rewrite Hv. reflexivity.
+  - apply andb_true_iff in H. destruct H as [E H].
+    cbn [aeval]. rewrite (IHe x0 H rf env v Hv). cbn [obind]. rewrite E. reflexivity.
+Qed.
+Lemma plain_bvar_eval : forall e x, plain_bvar e x = true -> forall rf env v,
+  lookup_var x env = Some v -> beval rf env e = Ret (negb (v =? 0)).
+Proof.
+  intros e x H rf env v Hv. destruct e; cbn [plain_bvar] in H; try discriminate.
+  apply name_eqb_eq in H. subst. cbn [beval]. rewrite Hv. reflexivity.
+Qed.
+Lemma filterM_ret : forall A (p : A -> outcome bool) (q : A -> bool) l,
+  (forall a, In a l -> p a = Ret (q a)) -> filterM p l = Ret (filter q l).
+Proof.
+  intros A p q l. induction l as [|a l IH]; intro H; [reflexivity|].
+  cbn [filterM filter]. rewrite (H a (or_introl eq_refl)). cbn [obind].
+  rewrite IH; [|intros b Hb; apply H; right; exact Hb]. cbn [obind]. destruct (q a); reflexivity.
+Qed.
+
 Lemma memoize_some_In : forall c, ct_memo_cmp c = 0 -> forall n m,
   memoize c n = Some m -> In n (ct_registers c ++ names_of (ct_memo c)).
 Proof.
@@ -168,6 +190,9 @@ Record ctx_facts (c : ctx_table) : Prop := {
   f_ip : ok_special c (ct_ip_acc c) (ct_ip_name c) = true;
   f_regs : forall r, In r (ct_registers c) -> ok_register c r = true;
   f_gpr : strs_eqb (ct_gpr c) (ct_registers c) = true;
+  f_md_get : plain_var (ct_md_get c) v_ga = true;
+  f_md_valid : plain_bvar (ct_md_valid c) v_iv = true;
+  f_md_filter : plain_bvar (ct_md_filter c) v_iv = true;
   f_cmp : ct_memo_cmp c = 0;
   f_lower : forall n, In n (accepted c) -> has_upper n = false
 }.
@@ -186,6 +211,9 @@ Proof.
   apply app_eq_nil in H. destruct H as [H9 H].
   apply app_eq_nil in H. destruct H as [H10 H].
   apply app_eq_nil in H. destruct H as [H11 H].
+  apply app_eq_nil in H. destruct H as [D1 H].
+  apply app_eq_nil in H. destruct H as [D2 H].
+  apply app_eq_nil in H. destruct H as [D3 H].
   apply app_eq_nil in H. destruct H as [H12 H13].
   constructor.
   - exact (diag_nil _ _ _ _ H1).
@@ -199,6 +227,9 @@ Proof.
   - exact (diag_nil _ _ _ _ H9 _ (or_introl eq_refl)).
   - exact (diag_nil _ _ _ _ H10).
   - exact (diag_nil _ _ _ _ H11 _ (or_introl eq_refl)).
+  - exact (diag_nil _ _ _ _ D1 _ (or_introl eq_refl)).
+  - exact (diag_nil _ _ _ _ D2 _ (or_introl eq_refl)).
+  - exact (diag_nil _ _ _ _ D3 _ (or_introl eq_refl)).
   - apply Z.eqb_eq. exact (diag_nil _ _ _ _ H12 _ (or_introl eq_refl)).
   - intros n Hn. pose proof (diag_nil _ _ _ _ H13 n Hn) as X. apply negb_true_iff in X. exact X.
 Qed.
@@ -429,6 +460,31 @@ Proof.
   rewrite <- (no_upper_lower n (f_lower c F n Hn)), <- (no_upper_lower m (f_lower c F m Hm)). exact Hl.
 Qed.
 
+(* MinidumpContext dispatch: the generated arms forward to the CpuContext methods *)
+Lemma md_get_always_eq : forall rf n, md_get_always c rf n = get_always c rf n.
+Proof.
+  intros rf n. unfold md_get_always. destruct (get_always c rf n) as [x| |t|] eqn:E; try reflexivity.
+  cbn [obind]. apply (plain_var_eval _ _ (f_md_get c F)). cbn [lookup_var]. rewrite name_eqb_refl. reflexivity.
+Qed.
+Lemma md_is_valid_eq : forall e, plain_bvar e v_iv = true -> forall rf n v,
+  md_is_valid e c rf n v = Ret (is_valid c n v).
+Proof.
+  intros e H rf n v. unfold md_is_valid.
+  rewrite (plain_bvar_eval e v_iv H rf _ (if is_valid c n v then 1 else 0)).
+  - destruct (is_valid c n v); reflexivity.
+  - cbn [lookup_var]. rewrite name_eqb_refl. reflexivity.
+Qed.
+Lemma md_get_register_eq : forall rf n v, md_get_register c rf n v = get_register c rf n v.
+Proof.
+  intros rf n v. unfold md_get_register, get_register.
+  rewrite (md_is_valid_eq _ (f_md_valid c F)). cbn [obind]. rewrite md_get_always_eq.
+  destruct (is_valid c n v); [|reflexivity]. destruct (get_always c rf n); reflexivity.
+Qed.
+Lemma md_named_eq : forall rf n, md_named c rf n = named c rf n.
+Proof.
+  intros rf n. unfold md_named, named. rewrite md_get_always_eq. destruct (get_always c rf n); reflexivity.
+Qed.
+
 Definition listing (rf : regfile) (names : list name) : list (name * Z) :=
   map (fun n => (n, rf_get rf (loc_of c n))) names.
 
@@ -446,18 +502,22 @@ Proof.
   intro rf. pose proof (strs_eqb_eq _ _ (f_gpr c F)) as G.
   assert (M : md_registers c rf = Ret (listing rf (ct_registers c))).
   { unfold md_registers, listing. rewrite G. apply mapM_ret.
-    intros a Ha. apply named_known. rewrite (register_known a Ha). discriminate. }
+    intros a Ha. rewrite md_named_eq. apply named_known. rewrite (register_known a Ha). discriminate. }
+  assert (V : forall v, md_valid_registers c rf v =
+                        Ret (filter (fun p => is_valid c (fst p) v) (listing rf (ct_registers c)))).
+  { intro v. unfold md_valid_registers. rewrite M. cbn [obind]. apply filterM_ret.
+    intros a _. apply (md_is_valid_eq _ (f_md_filter c F)). }
   split; [exact G|]. split; [exact M|].
   split.
   { unfold cpu_valid_registers, listing. apply mapM_ret.
     intros a Ha. apply named_known. rewrite (register_known a Ha). discriminate. }
   split.
-  { unfold md_valid_registers. rewrite M. unfold listing.
+  { rewrite V. unfold listing.
     rewrite (filter_map_fst (fun n => is_valid c n VAll) (fun n => rf_get rf (loc_of c n))).
     rewrite filter_all; [reflexivity|].
     intros x Hx. cbn [is_valid]. rewrite (register_known x Hx). reflexivity. }
   split.
-  { intro s. unfold md_valid_registers. rewrite M. unfold listing.
+  { intro s. rewrite V. unfold listing.
     rewrite (filter_map_fst (fun n => is_valid c n (VSome s)) (fun n => rf_get rf (loc_of c n))). reflexivity. }
   split.
   { intros s Hs. unfold cpu_valid_registers, listing. apply mapM_ret.
